@@ -571,6 +571,20 @@ class ElemExec(SymExec):
     def loop(self, s, st):
         inst = st.env.get("__inst__")
         it = s.iter
+        # itertools.chain(a, b, ...) over element iterators: the same as one loop after the other
+        if isinstance(inst, _Inst) and isinstance(it, ast.Call) and (call_name(it) or "").split(".")[-1] == "chain" and it.args and not it.keywords \
+                and all(isinstance(a_, ast.Call) and isinstance(a_.func, ast.Attribute) and a_.func.attr in KIND_OF_ITER for a_ in it.args) and not s.orelse:
+            states = [st]
+            for a_ in it.args:
+                part = ast.For(target=s.target, iter=a_, body=s.body, orelse=[], lineno=s.lineno, col_offset=s.col_offset)
+                nxt = []
+                for st_ in states:
+                    if st_.raised is not None or st_.done:
+                        nxt.append(st_)
+                    else:
+                        nxt.extend(self.loop(part, st_))
+                states = nxt
+            return states
         if isinstance(inst, _Inst) and isinstance(it, ast.Call) and isinstance(it.func, ast.Attribute) and it.func.attr in KIND_OF_ITER \
                 and not isinstance(self.ev(it.func.value, st), _Inst):
             kinds = list(KIND_OF_ITER[it.func.attr])
